@@ -160,10 +160,14 @@ func (s *Stmt) Text() string {
 }
 
 func (s *Stmt) limText() string {
-	if s.Lim.S == 0 && s.Lim.N%2 == 0 {
-		return fmt.Sprintf(" limit %d", s.Lim.N)
+	n := fmt.Sprint(s.Lim.N)
+	if s.Lim.N >= 2000000000 {
+		n = "9223372036854775807" // "a count beyond any result": the largest the language can express
 	}
-	return fmt.Sprintf(" limit %d, %d", s.Lim.S, s.Lim.N)
+	if s.Lim.S == 0 && s.Lim.N%2 == 0 {
+		return " limit " + n
+	}
+	return fmt.Sprintf(" limit %d, %s", s.Lim.S, n)
 }
 
 // Stored pair with the JSON document its value renders (or unspec).
